@@ -39,6 +39,24 @@ func (m model) clone() model {
 	return out
 }
 
+// rotated returns m rotated left by k positions (a sorted list becomes "up, down, up again").
+func rotated(m model, k int) model {
+	if len(m) < 2 {
+		return m
+	}
+	k %= len(m)
+	return append(append(model{}, m[k:]...), m[:k]...)
+}
+
+// sortedStable is the list an input in this order stands for: ascending numbers, equal numbers in input order.
+func sortedStable(m model) model {
+	var out model
+	for _, o := range m {
+		out = out.add(o.id, o.val)
+	}
+	return out
+}
+
 func (m model) remove(id uint16) model {
 	out := m[:0:0]
 	for _, o := range m {
@@ -549,10 +567,14 @@ func applyA(opts message.Options, m model, o op, step int) (message.Options, mod
 		total := 0
 		nm := m.clone()
 		nm = nm.add(o.ID, v)
+		// the input list is handed over in a rotated (i.e. in general unsorted) order: the result must be the sorted
+		// multiset, options of equal number in the order they were given
+		nm = rotated(nm, o.Len)
 		for _, x := range nm {
 			in = append(in, message.Option{ID: message.OptionID(x.id), Value: x.val})
 			total += len(x.val)
 		}
+		nm = sortedStable(nm)
 		bl := total + 1
 		if o.Buf < 0 && total > 0 {
 			bl = total - 1
@@ -671,11 +693,12 @@ func applyB(msg *pool.Message, m model, o op, step int, p *pool.Pool) (*pool.Mes
 		}
 		return msg, nm, nil
 	case "ResetOptionsTo":
-		nm := m.clone().add(o.ID, v)
+		nm := rotated(m.clone().add(o.ID, v), o.Len)
 		in := make(message.Options, 0, len(nm))
 		for _, x := range nm {
 			in = append(in, message.Option{ID: message.OptionID(x.id), Value: append([]byte(nil), x.val...)})
 		}
+		nm = sortedStable(nm)
 		msg.ResetOptionsTo(in)
 		for i := range in { // the input must have been copied
 			for j := range in[i].Value {
